@@ -65,7 +65,7 @@ def gen_case(rng, tier, i):
         nk = rng.randint(0, 4)
         decl = {f"k{j}": rng.choice(TYPES) for j in range(nk)}
         shape = rng.choice(["ok", "ok", "missing", "extra", "wrongtype", "nondict", "subclass", "none_value", "renamed", "empty",
-                            "reordered", "reordered_swapped"])
+                            "reordered", "reordered_swapped", "defaultdict"])
         return {"fam": "meta", "decl": decl, "shape": shape, "check": rng.random() < 0.7, "timed": rng.random() < 0.5,
                 "ts": rng.choice([0, 1.5, ["dur", 2.0, "h"], "bad", None])}
     nt, nl = rng.randint(2, 4), rng.randint(2, 5)
@@ -330,6 +330,12 @@ def _meta(case, ctx):
         payload[keys[0] + "_x"] = payload.pop(keys[0])
     elif shape == "empty":
         payload = {}
+    elif shape == "defaultdict" and keys and decl[keys[0]] in ("int", "float", "str", "bool", "list"):
+        # a dict subclass that invents missing keys on look-up: it lacks a declared key (and has a stray one instead)
+        import collections
+        fac = {"int": int, "float": float, "str": str, "bool": bool, "list": list}[decl[keys[0]]]
+        first = payload.pop(keys[0])
+        payload = collections.defaultdict(fac, {**payload, "zz_other": first})
     elif shape == "reordered":
         # the same conforming payload with its keys inserted in reverse order: a dict is a dict
         payload = {k: payload[k] for k in reversed(keys)}
@@ -339,12 +345,16 @@ def _meta(case, ctx):
         payload = {k: v for k, v in zip(reversed(keys), vals)}
     ts = _ts(case["ts"])
     ctx.count("metadata_attempts")
+    keys_before = list(payload.keys()) if isinstance(payload, dict) else None
     created = None
     try:
         created = TimedEvent(ts, et, payload, case["check"]) if case["timed"] else Event(et, payload, case["check"])
     except Exception as e:
         ctx.count("metadata_refusals")
         ctx.seen("refusal_exception_types", type(e).__name__)
+    if keys_before is not None and list(payload.keys()) != keys_before:
+        ctx.viol("payload-changed-by-the-check", {"decl": decl, "shape": shape, "keys_before": keys_before, "keys_after": list(payload.keys())})
+        return
     if created is None and shape == "reordered" and case["check"] and _conforms(decl, payload):
         # key order is not part of a dict payload: refused here although the same payload in declaration order is accepted?
         try:
